@@ -106,6 +106,68 @@ pub fn field_zoo(f: &Fld) -> Vec<Tagged> {
         push(w.clone(), "root-of-unity-2^k");
         w = f.sq(&w);
     }
+    // ... their negatives (the other square roots), and elements of every small multiplicative order n | p-1
+    // (roots of x^2+x+1, x^2-x+1, x^4+x^3+x^2+x+1, ...: a "this auxiliary polynomial never vanishes" argument
+    // fails exactly there), all of them for n <= 16, a generator and its inverse beyond
+    {
+        let mut w2 = f.pow(&{ let mut c = b(2); while f.legendre(&c) != -1 { c += b(1); } c }, &f.t);
+        for _ in 0..f.s {
+            push(f.neg(&w2), "root-of-unity-2^k");
+            w2 = f.sq(&w2);
+        }
+        let pm1 = p - b(1);
+        let mut orders: Vec<u64> = Vec::new();
+        for n in 3u64..=1024 {
+            if (&pm1 % b(n)) == b(0) {
+                orders.push(n);
+            }
+        }
+        for n in orders {
+            let e = &pm1 / b(n);
+            // an element of exact order n
+            let mut cnd = b(2);
+            let gen = loop {
+                let g = f.pow(&cnd, &e);
+                let exact = (2..=n).filter(|d| n % d == 0 && (2..*d).all(|q| d % q != 0)).all(|q| f.pow(&g, &b(n / q)) != b(1));
+                if exact {
+                    break g;
+                }
+                cnd += b(1);
+            };
+            if n <= 16 {
+                let mut x = gen.clone();
+                for j in 1..n {
+                    if gcd_u64(j, n) == 1 {
+                        push(x.clone(), "small-multiplicative-order");
+                    }
+                    x = f.mul(&x, &gen);
+                }
+            } else if n.is_power_of_two() {
+                continue;
+            } else {
+                push(gen.clone(), "small-multiplicative-order");
+                push(f.inv(&gen).unwrap(), "small-multiplicative-order");
+            }
+        }
+    }
+    // quotient-estimate boundaries: floor(j*p/k) and its neighbours for the small multipliers k that occur in
+    // curve formulas (2, 3, 4, 8, d, d-a, 2d, a-2d, 4d) and j = 1, k/2, k-1, as canonical values and as internal forms
+    {
+        let n64 = (f.bits + 63) / 64;
+        let rinv = f.inv(&((b(1) << (64 * n64)) % p)).unwrap();
+        for k in [2u64, 3, 4, 5, 8, 16, 3021, 3022, 6042, 6043, 12084] {
+            for j in [1u64, 2, k / 2, k - 1] {
+                if j == 0 || j >= k {
+                    continue;
+                }
+                let m = (p * b(j)) / b(k);
+                for v in [m.clone(), &m + b(1), &m - b(1), &m - b(2), &m - b(3)] {
+                    push(v.clone(), "near j*p/k");
+                    push(f.mul(&v, &rinv), "near j*p/k");
+                }
+            }
+        }
+    }
     for v in [3u64, 4, 5, 7, 8, 10, 16, 255, 256, 3021, 6042, 65535, 65536] {
         push(b(v), "small-int");
         push(p - b(v), "neg-small-int");
@@ -683,6 +745,47 @@ pub fn element_zoo(c: &Curve, rng: &mut impl RngCore, nrand: usize) -> Vec<MEl> 
 
 
 /// the deterministic, more expensive part of the element zoo (computed once per process)
+/// Elements whose *encoding* is sparse as a byte string: a single non-zero byte at each position, the top byte
+/// together with one other byte / with a low half only, whole empty 64- and 128-bit halves. Assembling or
+/// splitting an encoding by halves, limbs or bytes meets its "this part is zero" shortcuts here.
+pub fn sparse_encoding_elements(c: &Curve) -> Vec<MEl> {
+    use std::sync::OnceLock;
+    static CACHE: OnceLock<Vec<MEl>> = OnceLock::new();
+    CACHE.get_or_init(|| {
+        let f = &c.f;
+        let mut cands: Vec<B> = Vec::new();
+        for pos in 0..32usize {
+            for v in [2u64, 0x10, 0x80, 0xfe, 0x01] {
+                cands.push(b(v) << (8 * pos));
+            }
+        }
+        let top_max = (&f.p >> 248usize).to_u64_digits().first().copied().unwrap_or(0);
+        for t in 1..=top_max {
+            let top = b(t) << 248usize;
+            for low in [b(0), b(2), b(0xfffe), b(1) << 64, (b(1) << 64) - b(2), (b(1) << 127) + b(2), (b(1) << 128) - b(2), b(0x9E37_79B9_7F4A_7C14) << 40, (b(1) << 128) + b(2), b(1) << 192] {
+                cands.push(&top + low);
+            }
+            for pos in 0..31usize {
+                cands.push(&top + (b(0x42) << (8 * pos)));
+            }
+        }
+        for k in 1u64..=12 {
+            cands.push((b(k) << 128usize) + b(2 * k));
+            cands.push(b(k) << 192usize);
+            cands.push((b(k) << 192usize) + (b(k) << 64usize));
+        }
+        let mut z = Vec::new();
+        for s in cands {
+            if s < f.p && !s.bit(0) {
+                if let Ok(p) = c.decode_spec_fe(&s) {
+                    z.push(MEl { pt: p, class: "sparse-encoding" });
+                }
+            }
+        }
+        z
+    }).clone()
+}
+
 fn structured_elements(c: &Curve) -> Vec<MEl> {
     use std::sync::OnceLock;
     static CACHE: OnceLock<Vec<MEl>> = OnceLock::new();
@@ -1045,4 +1148,8 @@ pub fn two_adic_relations(p: &B) -> Vec<B> {
         }
     }
     out
+}
+
+fn gcd_u64(a: u64, b2: u64) -> u64 {
+    if b2 == 0 { a } else { gcd_u64(b2, a % b2) }
 }
